@@ -7,6 +7,7 @@
 -/
 import PySpikeVerif.Spec.Sync
 import PySpikeVerif.Proofs.ApiLaws
+import PySpikeVerif.Proofs.SyncScan
 
 namespace PySpike.C04
 open PySpike
@@ -52,5 +53,26 @@ theorem example_directionality : dirProfile [1, 5] [2, 6] 0 10 0 0 = ([1, 1], [-
 theorem example_spec : dirProfile [1, 5, 7] [2, 5, 9] 0 10 0 0
     = (dirSpec1 [1, 5, 7] [2, 5, 9] (trueMax 0 10 0) 0, dirSpec2 [1, 5, 7] [2, 5, 9] (trueMax 0 10 0) 0) := by
   decide +kernel
+
+/-- **the spike-train-order profile follows the sign convention for every input**: the scan equals
+    the pairwise definition with values (-1, +1, 0): both spikes of a coincident pair get +1 when
+    the first train's spike comes first and -1 when it comes second (`mark1`/`mark2`), simultaneous
+    and non-coincident spikes get 0 -/
+theorem order_profile_is_sign_convention (s1 s2 : List Q) (ts te mt m : Q)
+    (h1 : StrictSorted s1) (h2 : StrictSorted s2) :
+    orderProfile s1 s2 ts te mt m = frameProfile ts te (scanSpec (-1) 1 0 s1 s2 (trueMax ts te mt) m) :=
+  orderProfile_eq_spec s1 s2 ts te mt m h1 h2
+
+/-- it uses the same coincidences as SPIKE-Sync: the two profiles are the same scan with
+    different values, so they have the same times and multiplicities and a spike is non-zero in
+    the order profile only if it is marked in the SPIKE-Sync profile -/
+theorem same_coincidences_as_sync (s1 s2 : List Q) (tm m a : Q) :
+    mark1 (-1) 1 s1 s2 tm m a ≠ 0 → mark1 1 1 s1 s2 tm m a = 1 := by
+  unfold mark1
+  split
+  · intro _; rfl
+  · split
+    · intro _; rfl
+    · intro h; exact absurd rfl h
 
 end PySpike.C04
